@@ -66,7 +66,8 @@ def run_tlc(module, cfg=None, env=None, workers=None, timeout=600, metadir=None,
     """Run TLC on spec/<module>.tla with spec/<cfg>.cfg. Returns TLCResult."""
     workers = workers or NCPU
     cfg = cfg or module
-    metadir = metadir or os.path.join(WORK, "tlc", "%s_%d_%d" % (cfg, os.getpid(), int(time.time() * 1000) % 100000))
+    import uuid
+    metadir = metadir or os.path.join(WORK, "tlc", "%s_%d_%s" % (cfg, os.getpid(), uuid.uuid4().hex[:10]))
     os.makedirs(metadir, exist_ok=True)
     cmd = ["tlc", "-workers", str(workers), "-metadir", metadir, "-noGenerateSpecTE",
            "-config", cfg + ".cfg"]
